@@ -52,10 +52,9 @@ def run_mc(ctx):
             np_, cls = {0: (4, "tiny"), 3: (4, "tiny"), 4: (5, "micro"), 5: (5, "micro")}[dhi]
             jobs.append((name, mc_constants(par, np_, cls, 0, 1, joined="{TRUE}"), None, 600, True))
         else:
-            np_, cls = {0: (5, "lite"), 3: (5, "lite"), 4: (5, "lite"), 5: (6, "tiny")}[dhi]
+            np_, cls = {0: (5, "lite"), 3: (5, "full"), 4: (5, "lite"), 5: (6, "lite")}[dhi]
             jobs.append((name, mc_constants(par, np_, cls, 0, 1, joined="{TRUE}"), None, 1500, True))
     if ctx.thorough:
-        jobs.append(("hb-21310-full", mc_constants((2, 1, 3, 1, 0), 4, "full", 0, 1, joined="{TRUE}"), None, 1500, True))
         jobs.append(("hb-42521", mc_constants((4, 2, 5, 2, 1), 6, "micro", 0, 1, joined="{TRUE}"), None, 1500, True))
     # events: one (thorough: two) arbitrary event(s) and a heartbeat from every class state, joined or not
     if not ctx.thorough:
@@ -481,6 +480,23 @@ def gen_scenarios(ctx):
 
 
 # ----------------------------------------------------------------------------- replay and trace validation
+def read_trace(path):
+    """NDJSON reader that tolerates a truncated last line (the driver may have died mid-write)."""
+    out = []
+    if not os.path.exists(path):
+        return out
+    with open(path) as f:
+        for line in f:
+            line = line.strip()
+            if not line:
+                continue
+            try:
+                out.append(json.loads(line))
+            except ValueError:
+                break
+    return out
+
+
 def go_parallel(n):
     """vlib.run_go rewrites go.alt.mod on every call when VERIF_REPO points at a scratch worktree: no concurrent go runs then."""
     return n if os.path.realpath(vlib.REPO) == "/repo" else 1
@@ -488,42 +504,51 @@ def go_parallel(n):
 
 def replay(ctx, scns, name, shards=4):
     """Replays scenarios through TestRouterReplay in parallel shards; returns the step lines per scenario
-    (global scenario index = position in scns)."""
+    (global scenario index = position in scns). When the driver process dies in a scenario, the crash is
+    examined (handle_crash) and the rest of the shard is replayed by a new process (at most 3 times)."""
     shards = max(1, min(shards, (len(scns) + 39) // 40))
     parts = [list(range(i, len(scns), shards)) for i in range(shards)]
 
     def one(k):
-        inp = os.path.join(ctx.work, "%s-in-%d.ndjson" % (name, k))
-        outp = os.path.join(ctx.work, "%s-out-%d.ndjson" % (name, k))
-        mark = os.path.join(ctx.work, "%s-marker-%d" % (name, k))
-        vlib.write_ndjson(inp, [{"cfg": scns[i]["cfg"], "acts": scns[i]["acts"]} for i in parts[k]])
-        r = vlib.run_go(ctx, "./drivers/router/", "^TestRouterReplay$", env={"VERIF_IN": inp, "VERIF_OUT": outp, "VERIF_MARKER": mark},
-                        timeout=1500, name="%s-%d" % (name, k))
-        return k, r, outp, mark
+        todo, got, crashes, attempt = list(parts[k]), {}, [], 0
+        while todo and attempt < 4:
+            inp = os.path.join(ctx.work, "%s-in-%d-%d.ndjson" % (name, k, attempt))
+            outp = os.path.join(ctx.work, "%s-out-%d-%d.ndjson" % (name, k, attempt))
+            mark = os.path.join(ctx.work, "%s-marker-%d-%d" % (name, k, attempt))
+            vlib.write_ndjson(inp, [{"cfg": scns[i]["cfg"], "acts": scns[i]["acts"]} for i in todo])
+            r = vlib.run_go(ctx, "./drivers/router/", "^TestRouterReplay$", env={"VERIF_IN": inp, "VERIF_OUT": outp, "VERIF_MARKER": mark},
+                            timeout=1500, name="%s-%d-%d" % (name, k, attempt))
+            per = {}
+            for ln in read_trace(outp):
+                per.setdefault(ln["scn"], []).append(ln)
+            if r["rc"] == 0:
+                for local, ls in per.items():
+                    got[todo[local]] = ls
+                todo = []
+                break
+            crashed = int(open(mark).read()) if os.path.exists(mark) else -1
+            crashes.append((todo[crashed] if 0 <= crashed < len(todo) else -1, r))
+            for local, ls in per.items():
+                if local < crashed:
+                    got[todo[local]] = ls
+            todo = todo[crashed + 1:] if crashed >= 0 else []
+            attempt += 1
+        return got, crashes
 
     res = {}
     with cf.ThreadPoolExecutor(max_workers=go_parallel(shards)) as ex:
-        for k, r, outp, mark in ex.map(one, range(shards)):
-            lines = vlib.read_ndjson(outp) if os.path.exists(outp) else []
-            per = {}
-            for ln in lines:
-                per.setdefault(ln["scn"], []).append(ln)
-            if r["rc"] != 0:
-                crashed = int(open(mark).read()) if os.path.exists(mark) else -1
-                handle_crash(ctx, scns, parts[k], crashed, r, name)
-                per.pop(crashed, None)        # the crashed scenario's trace is incomplete
-                # scenarios after the crash were not run
-            for local, ls in per.items():
-                res[parts[k][local]] = ls
+        for got, crashes in ex.map(one, range(shards)):
+            res.update(got)
+            for g, r in crashes:
+                handle_crash(ctx, scns, g, r, name)
     missing = [i for i in range(len(scns)) if i not in res]
     return res, missing
 
 
-def handle_crash(ctx, scns, part, local, r, name):
-    """The driver process died. It is a violation only if the single scenario reproduces a panic in library code."""
-    if local < 0 or local >= len(part):
+def handle_crash(ctx, scns, g, r, name):
+    """The driver process died in scenario g. It is a violation only if the single scenario reproduces a panic in library code."""
+    if g < 0:
         raise vlib.Inconclusive("driver %s failed outside a scenario (rc=%s, see %s)" % (name, r["rc"], r["log"]))
-    g = part[local]
     inp = os.path.join(ctx.work, "%s-crash-%d.ndjson" % (name, g))
     outp = os.path.join(ctx.work, "%s-crash-%d-out.ndjson" % (name, g))
     vlib.write_ndjson(inp, [{"cfg": scns[g]["cfg"], "acts": scns[g]["acts"]}])
@@ -654,7 +679,7 @@ def run_walks(ctx):
             raise vlib.Inconclusive("walk driver failed (rc=%s, see %s)" % (r["rc"], r["log"]))
         dumped = vlib.read_ndjson(dump) if os.path.exists(dump) else []
         per = {}
-        for ln in vlib.read_ndjson(outp):
+        for ln in read_trace(outp):
             per.setdefault(ln["scn"], []).append(ln)
         for local in sorted(per):
             g = len(scns)
